@@ -84,6 +84,7 @@ class TypeUnit:
         return (f"#include <{self.hdr}>\n"
                 f"int8_t h_ser(const {self.cn}* o, uint8_t* b, size_t* s){{ return {self.cn}_serialize_(o, b, s); }}\n"
                 f"int8_t h_des({self.cn}* o, const uint8_t* b, size_t* s){{ return {self.cn}_deserialize_(o, b, s); }}\n"
+                f"int8_t h_des_prior({self.cn}* o, const uint8_t* b, size_t* s){{ return {self.cn}_deserialize_(o, b, s); }}\n"
                 f"void h_init({self.cn}* o){{ {self.cn}_initialize_(o); }}\n")
 
     budget_s = 300.0
@@ -271,17 +272,24 @@ def des_goal(tu: TypeUnit, model: z3.ModelRef, buf0: typing.Sequence[typing.Any]
     return ch.cond(), goal, f"valid representation, consumes {want} of {L}"
 
 
-def des_queries(tu: TypeUnit, L: int, check_ub: bool, functional: bool = True, uninit_dst: bool = False) -> QueryLog:
+def des_queries(tu: TypeUnit, L: int, check_ub: bool, functional: bool = True, uninit_dst: bool = False, entry: str = "h_des") -> QueryLog:
     log = QueryLog()
     eng = tu.engine(check_ub)
     st, buf0, dst0, pbuf, pdst, psz = des_setup(tu, L, uninit_dst)
+    if entry == "h_des_prior":
+        # mirror harness: the destination struct is converted into the target object first, so it must be a valid object
+        core.State._prior_pre = D.validity_preconditions(D.c_read(tu.t, "", tu.lay, dst0)) + D.bool_preconditions(D.c_read(tu.t, "", tu.lay, dst0))
+        st.pc += core.State._prior_pre
+    else:
+        core.State._prior_pre = []
     try:
-        res = eng.run("h_des", [pdst, pbuf, psz], st)
+        res = eng.run(entry, [pdst, pbuf, psz], st)
     except core.Unsupported as e:
         log.unknown.append(f"unsupported: {e}")
         return log
     solver = z3.Solver()
     solver.set("timeout", QUERY_TIMEOUT_MS)
+    summaries: list = []
     for kind, s2, r in res:
         log.paths += 1
         if kind == "violation":
@@ -302,7 +310,10 @@ def des_queries(tu: TypeUnit, L: int, check_ub: bool, functional: bool = True, u
                 log.cex.append(dict(fn="des", kind="bad-return", what="undocumented return code or consumed size beyond the supplied size", L=L,
                                     inputs=_inputs(m, [], buf0, dst0)))
             if uninit_dst:
-                _prior_independence(tu, solver, s2, r, consumed, fin, buf0, dst0, L, log)
+                n_before = len(log.cex)
+                _prior_independence(tu, solver, s2, r, consumed, fin, buf0, dst0, L, log, collect=(summaries if entry == "h_des_prior" else None))
+                for c in log.cex[n_before:]:
+                    c["entry"] = entry
             continue
         gen = _shapes_under(solver, _pc(s2), log)
         for m in gen:
@@ -312,12 +323,15 @@ def des_queries(tu: TypeUnit, L: int, check_ub: bool, functional: bool = True, u
                 log.cex.append(dict(fn="des", kind="spec-mismatch", what=f"deserializer result differs from the specification ({desc})", L=L,
                                     inputs=_inputs(bad, [], buf0, dst0)))
             gen.send(cond)
+    if summaries:
+        _prior_pairs(solver, summaries, dst0, buf0, L, log, entry)
     log.solver_s += eng.stats["solver_time"]
     return log
 
 
 def _prior_independence(tu: TypeUnit, solver: z3.Solver, s2: core.State, rc: typing.Any, consumed: typing.Any, fin: typing.Sequence[typing.Any],
-                        buf0: typing.Sequence[typing.Any], dst0: typing.Sequence[typing.Any], L: int, log: QueryLog) -> None:
+                        buf0: typing.Sequence[typing.Any], dst0: typing.Sequence[typing.Any], L: int, log: QueryLog,
+                        collect: typing.Optional[list] = None) -> None:
     """The outcome of a deserialization (error code, consumed size, every meaningful decoded field) and the path taken depend only on
     the input bytes, never on what the destination held before.  Reads of the prior state are allowed (read-modify-write of partial
     bytes) as long as they cannot influence any of those.  Syntactic independence first; otherwise a two-copy solver query."""
@@ -334,6 +348,12 @@ def _prior_independence(tu: TypeUnit, solver: z3.Solver, s2: core.State, rc: typ
         except D.Invalid:
             outs = [bv(rc, 8), bv(consumed, 64)]
         cond = ch.cond()
+        if collect is not None:
+            # mirror harness: the PATH legitimately depends on the prior object (it is converted first); only the outputs are compared,
+            # across all pairs of paths, after the exploration (see _prior_pairs)
+            collect.append((pcs, cond, [z3.simplify(o) if not isinstance(o, int) else z3.BitVecVal(o, 8) for o in outs]))
+            gen.send(cond)
+            continue
         terms = pcs + [z3.simplify(o) if not isinstance(o, int) else z3.BitVecVal(o, 8) for o in outs]
         used = {str(v) for t in terms for v in get_vars(t)} & set(prior)
         if not used:
@@ -343,13 +363,34 @@ def _prior_independence(tu: TypeUnit, solver: z3.Solver, s2: core.State, rc: typ
             pc2 = [z3.substitute(c, *sub) for c in pcs]
             outs2 = [z3.substitute(o, *sub) for o in terms[len(pcs):]]
             same = z3.And(*(pc2 + [a == b for a, b in zip(terms[len(pcs):], outs2)]))
-            bad = _check(solver, pcs + [cond], same, log)
+            # the second prior state satisfies the same preconditions as the first (valid object for mirror harnesses)
+            pre_b = [z3.substitute(c, *sub) for c in getattr(s2, "_prior_pre", [])]
+            bad = _check(solver, pcs + [cond] + pre_b, same, log)
             if bad is not None:
                 inp = _inputs(bad, [], buf0, dst0)
                 inp["dst_b"] = bytes(bad.eval(z3.BitVec(str(v) + "_b", 8), model_completion=True).as_long() for v in dst0).hex()
                 log.cex.append(dict(fn="des", kind="prior-state-influence", what=f"result depends on the destination's prior contents (bytes {sorted(used)[:6]})",
                                     L=L, inputs=inp))
         gen.send(cond)
+
+
+def _prior_pairs(solver: z3.Solver, summaries: list, dst0: typing.Sequence[typing.Any], buf0: typing.Sequence[typing.Any], L: int, log: QueryLog, entry: str) -> None:
+    """for every pair of (path, wire shape) summaries with the same wire shape: no buffer and two valid prior objects exist for which the
+    first takes path p, the second path q, and the outputs differ"""
+    sub = [(v, z3.BitVec(str(v) + "_b", 8)) for v in dst0]
+    for i, (pcs_p, cond_p, outs_p) in enumerate(summaries):
+        for pcs_q, cond_q, outs_q in summaries[i:]:
+            if not z3.eq(cond_p, cond_q) or len(outs_p) != len(outs_q):
+                continue
+            pc_q = [z3.substitute(c, *sub) for c in pcs_q]
+            outs_qb = [z3.substitute(o, *sub) for o in outs_q]
+            same = z3.And(*[a == b for a, b in zip(outs_p, outs_qb)]) if outs_p else z3.BoolVal(True)
+            bad = _check(solver, pcs_p + [cond_p] + pc_q, same, log)
+            if bad is not None:
+                inp = _inputs(bad, [], buf0, dst0)
+                inp["dst_b"] = bytes(bad.eval(z3.BitVec(str(v) + "_b", 8), model_completion=True).as_long() for v in dst0).hex()
+                log.cex.append(dict(fn="des", kind="prior-state-influence", what="result depends on the value the destination object held before", L=L,
+                                    inputs=inp, entry=entry))
 
 
 def _unwritten_meaningful(tu: TypeUnit, exp: typing.Any, fin: typing.Sequence[typing.Any]) -> typing.List[int]:
@@ -392,7 +433,7 @@ int main(int argc, char** argv){
   uint8_t* b = (uint8_t*) malloc(n ? n : 1); if(!n){ free(b); b = (uint8_t*) malloc(0); }
   hex(argv[3], (uint8_t*) o); hex(argv[4], b);
   size_t s = n; int rc;
-  if(!strcmp(argv[1], "ser")) rc = h_ser(o, b, &s); else rc = h_des(o, b, &s);
+  if(!strcmp(argv[1], "ser")) rc = h_ser(o, b, &s); else if(!strcmp(argv[1], "desp")) rc = h_des_prior(o, b, &s); else rc = h_des(o, b, &s);
   printf("rc=%d size=%zu", rc, s); ph("obj", (const uint8_t*) o, sizeof(@T@)); ph("buf", b, n); printf("\n");
   free(o); free(b); return 0; }
 """
@@ -422,6 +463,7 @@ def replay(tu: TypeUnit, cex: dict) -> typing.Tuple[bool, str]:
     n = cex["bufsize"] if fn == "ser" else cex["L"]
     obj_hex = inp["obj"] if fn == "ser" else inp["dst"]
     if cex["kind"] == "prior-state-influence":
+        fn = "desp" if cex.get("entry") == "h_des_prior" else fn
         rc1, out1, _ = native_run(tu, fn, n, inp["dst"], inp["buf"])
         rc2, out2, _ = native_run(tu, fn, n, inp["dst_b"], inp["buf"])
         if rc1 != 0 or rc2 != 0:
